@@ -584,11 +584,11 @@ func (dsc *dataStoreCommand) bitfieldWrite(keyName string, ops []*bitfieldOp) (o
 			output.data = wrongTypeError
 			return
 		}
-		if len(strBytes) < length {
-			expanded := make([]byte, length)
-			copy(expanded, strBytes)
-			strBytes = expanded
-		}
+		// always work on a private copy: the stored slice may be in the hands of a reader
+		// (GETBIT, BITCOUNT, BITPOS, GET ... use the value after releasing the lock)
+		expanded := make([]byte, max(length, len(strBytes)))
+		copy(expanded, strBytes)
+		strBytes = expanded
 		expiration = sk.expiresAt
 	} else {
 		// make a brand new byte array
@@ -1064,7 +1064,10 @@ func (dsc *dataStoreCommand) expire(keyName string, expiration time.Time, nx, xx
 }
 
 func (dsc *dataStoreCommand) expireTime(keyName string) (expiration time.Time, valid int) {
-	sk, exists := dsc.getKeyObject(keyName)
+	dsc.lock()
+	defer dsc.unlock()
+
+	sk, exists := dsc.getKeyObjectUnlocked(keyName)
 	if !exists {
 		valid = -2
 		return
